@@ -99,6 +99,31 @@ def exit_label(E, res):
 TRACE = bool(os.environ.get('VERIF_TRACE'))
 
 
+def external_unsat(smt2_text, timeout_s=90):
+    """True iff an external solver process (cvc5, then /usr/bin/z3) answers `unsat` without any error line"""
+    import subprocess, tempfile
+    with tempfile.NamedTemporaryFile('w', suffix='.smt2', delete=False, dir=os.environ.get('TMPDIR', '/tmp')) as f:
+        f.write('(set-logic ALL)\n' + smt2_text)
+        path = f.name
+    try:
+        for cmd in (['cvc5', '--lang', 'smt2', '--tlimit=%d' % (timeout_s * 1000), path], ['/usr/bin/z3', '-T:%d' % timeout_s, path]):
+            try:
+                out = subprocess.run(cmd, capture_output=True, text=True, timeout=timeout_s + 10).stdout
+            except Exception:
+                continue
+            lines = [l.strip() for l in out.splitlines() if l.strip()]
+            if any(l.startswith('(error') for l in lines):
+                continue
+            if lines and lines[-1] == 'unsat' and 'sat' not in [l for l in lines[:-1]]:
+                return True
+        return False
+    finally:
+        try:
+            os.unlink(path)
+        except OSError:
+            pass
+
+
 def make_on_path(E, obl):
     def on_path(res):
         out = {'exit': exit_label(E, res), 'violations': [], 'unknown': [], 'checked': 0, 'trivial': 0}
@@ -134,11 +159,20 @@ def make_on_path(E, obl):
                 # tactic pipeline and decides e.g. div/mod-by-constant queries the incremental core gives up on
                 t1 = time.time()
                 s2 = z3.Solver()
-                s2.set('timeout', 120000)
+                s2.set('timeout', 60000)
                 s2.add(s.assertions())
                 if Pf is not False:
                     s2.add(z3.Not(Pf))
                 r = s2.check()
+                if r == z3.unknown:
+                    # second and third opinion on the same SMT-LIB text: cvc5 and the system z3 (another version). Only an
+                    # `unsat` from them is used (a `sat` still needs a model from the in-process solver to be reported)
+                    if external_unsat(s2.to_smt2()):
+                        r = z3.unsat
+                    else:
+                        s2.set('timeout', 200000)
+                        s2.set('random_seed', 7)
+                        r = s2.check()
                 res.ctx.stats['solver_s'] += time.time() - t1
                 res.ctx.stats['queries'] += 1
                 if r == z3.sat:
